@@ -19,6 +19,12 @@ class Scope:
         self.resolver: Resolver = resolver
         self.table: Table | None = None
         self.labels: dict[str, int] = {}
+        self.pending: set[str] = set()
+
+    def declare(self, symbol: str) -> None:
+        """Announces a symbol this scope defines later (label, `=` symbol, late macro argument).
+        Until it has its value, lookups must not fall through to an outer symbol of the same name."""
+        self.pending.add(symbol)
 
     def add_label(self, label: str, value: Address) -> None:
         self.labels[label] = value.logical_value
@@ -61,6 +67,8 @@ class Scope:
         if self.parent:
             if symbol in self.symbols or symbol in self.code_symbols:
                 return self[symbol]
+            elif symbol in self.pending:
+                raise SymbolNotDefined(symbol)
             else:
                 return self.parent.value_for(symbol)
         else:
